@@ -5,6 +5,9 @@ import RotondaModel.Model.ReconfUnits
       `x<k>`, `R<cfg>`. Output per event `<token>@P<bound>:L<live keys>:O<open connections>`.
     `F|<cfg>|<ev>;…` file-out: cfg = `<c|j|m><file>`; events `e<r>`, `b`, `L<cfg>` / `M<cfg>`.
       Output `<a|d per event> | f0=… f1=… f2=…`.
+    `X|n<name>,<u>+<u>|<ev>;…` filter: events `s<u>.<tag>` (upstream u publishes an end-of-stream notice), `R<cfg>`.
+      Output per event `f<tag>` | `-` | `n<name>:S<subscribed upstreams>`.
+    `N|<u>+<u>|<ev>;…` null-out: events `r` (ReportLinks), `R<srcs>`. Output per event the reported `<u>.<gen>,…`.
     Flags: `bgpeq=`, `bgpmatch=`, `bgplisten=`, `fileout=` `as-written|repaired`. -/
 open Rotonda.ReconfUnits
 
@@ -136,10 +139,67 @@ def runFile (v : Variant) (cfg evs : String) : String :=
       " ".intercalate ([0, 1, 2].map (showFile opened log))
   | _, _ => "bad-case"
 
+
+/-! ### filter -/
+def parseUnits (s : String) : Option (List Nat) :=
+  if s == "-" then some [] else (s.splitOn "+").mapM nat?
+
+open Filter in
+def parseXCfg (s : String) : Option Cfg :=
+  match s.splitOn "," with
+  | [n, us] => if n.startsWith "n" then do
+      let n ← nat? (n.drop 1).toString; let us ← parseUnits us; pure ⟨n, us⟩ else none
+  | _ => none
+
+open Filter in
+def parseXEv (s : String) : Option Ev :=
+  let r := (s.drop 1).toString
+  if s.startsWith "s" then
+    match (r.splitOn ".").mapM nat? with
+    | some [u, t] => some (.eos u t)
+    | _ => none
+  else if s.startsWith "R" then (parseXCfg r).map .reload
+  else none
+
+def insertNat (x : Nat) : List Nat → List Nat
+  | [] => [x]
+  | y :: ys => if x < y then x :: y :: ys else if x == y then y :: ys else y :: insertNat x ys
+
+def showXStep (before after : Filter.St) : Filter.Ev → String
+  | .eos _ t => if after.out.length > before.out.length then s!"f{t}" else "-"
+  | .reload _ =>
+    let subs := (after.sources.map (·.1)).foldr insertNat []
+    s!"n{after.name}:S{String.join (subs.map toString)}"
+
+def runFilter (cfg evs : String) : String :=
+  match parseXCfg cfg, (if evs.isEmpty then some [] else (evs.splitOn ";").mapM parseXEv) with
+  | some c, some es =>
+    let rec go (s : Filter.St) : List Filter.Ev → List String
+      | [] => []
+      | e :: es => let s' := Filter.step s e; showXStep s s' e :: go s' es
+    " ".intercalate (go (Filter.init c) es)
+  | _, _ => "bad-case"
+
+/-! ### null-out -/
+open NullOut in
+def parseNEv (s : String) : Option Ev :=
+  if s == "r" then some .report
+  else if s.startsWith "R" then (parseUnits (s.drop 1).toString).map .reload
+  else none
+
+def runNull (cfg evs : String) : String :=
+  match parseUnits cfg, (if evs.isEmpty then some [] else (evs.splitOn ";").mapM parseNEv) with
+  | some c, some es =>
+    " ".intercalate ((NullOut.trace (NullOut.init c) es).map (fun s =>
+      orDash (s.sources.map (fun (u, g) => s!"{u}.{g}"))))
+  | _, _ => "bad-case"
+
 def runCase (v : Variant) (line : String) : String :=
   match line.splitOn "|" with
   | ["G", c, e] => runBgp v c e
   | ["F", c, e] => runFile v c e
+  | ["X", c, e] => runFilter c e
+  | ["N", c, e] => runNull c e
   | _ => "bad-case"
 
 partial def loop (v : Variant) (h : IO.FS.Stream) (out : IO.FS.Stream) : IO Unit := do
